@@ -522,9 +522,15 @@ func (c *ctx) durationNs(rel string, e ast.Expr) int64 {
 
 // recogniseDurationParser:
 //
-//	if len(X.F) > 0 { duration, err := time.ParseDuration(X.F); if err != nil { return err }; X.FParsed = duration } else { X.FParsed = <const> }
+//	if len(X.F) > 0 {
+//		duration, err := time.ParseDuration(X.F); if err != nil { return err }
+//		[ if duration <= 0 { return <error> } ]            -- optional positivity guard
+//		X.FParsed = duration
+//	} else { X.FParsed = <const> }
 //	return nil
-func (c *ctx) recogniseDurationParser(fn, field string) int64 {
+//
+// Returns the default (ns) and whether the positivity guard is present.
+func (c *ctx) recogniseDurationParser(fn, field string) (int64, bool) {
 	fd := c.funcDecl("configparser.go", "", fn)
 	if len(fd.Type.Params.List) != 1 || len(fd.Type.Params.List[0].Names) != 1 {
 		fail("%s: %s: one parameter expected", c.pos(fd), fn)
@@ -535,18 +541,31 @@ func (c *ctx) recogniseDurationParser(fn, field string) int64 {
 		fail("%s: %s: expected `if …; return nil`", c.pos(fd), fn)
 	}
 	ifs, ok := b[0].(*ast.IfStmt)
-	if !ok || ifs.Init != nil || exprStr(ifs.Cond) != "len("+x+"."+field+")>0" || len(ifs.Body.List) != 3 {
+	if !ok || ifs.Init != nil || exprStr(ifs.Cond) != "len("+x+"."+field+")>0" || (len(ifs.Body.List) != 3 && len(ifs.Body.List) != 4) {
 		fail("%s: %s: condition/then-branch not recognised", c.pos(b[0]), fn)
 	}
-	m := regexp.MustCompile(`^(\w+), err := time\.ParseDuration\(` + x + `\.` + field + `\)$`).FindStringSubmatch(c.src(ifs.Body.List[0]))
+	then := ifs.Body.List
+	m := regexp.MustCompile(`^(\w+), err := time\.ParseDuration\(` + x + `\.` + field + `\)$`).FindStringSubmatch(c.src(then[0]))
 	if m == nil {
-		fail("%s: %s: time.ParseDuration call not recognised", c.pos(ifs.Body.List[0]), fn)
+		fail("%s: %s: time.ParseDuration call not recognised", c.pos(then[0]), fn)
 	}
-	if c.src(ifs.Body.List[1]) != "if err != nil { return err }" {
-		fail("%s: %s: ParseDuration error is not returned", c.pos(ifs.Body.List[1]), fn)
+	if c.src(then[1]) != "if err != nil { return err }" {
+		fail("%s: %s: ParseDuration error is not returned", c.pos(then[1]), fn)
 	}
-	if c.src(ifs.Body.List[2]) != x+"."+field+"Parsed = "+m[1] {
-		fail("%s: %s: parsed duration is not assigned to %sParsed", c.pos(ifs.Body.List[2]), fn, field)
+	positive := false
+	if len(then) == 4 {
+		g, ok := then[2].(*ast.IfStmt)
+		if !ok || g.Init != nil || g.Else != nil || exprStr(g.Cond) != m[1]+"<=0" || len(g.Body.List) != 1 {
+			fail("%s: %s: unsupported statement between ParseDuration and the assignment: `%s`", c.pos(then[2]), fn, c.src(then[2]))
+		}
+		r, ok := g.Body.List[0].(*ast.ReturnStmt)
+		if !ok || len(r.Results) != 1 || exprStr(r.Results[0]) == "nil" {
+			fail("%s: %s: positivity guard does not return an error", c.pos(g), fn)
+		}
+		positive = true
+	}
+	if c.src(then[len(then)-1]) != x+"."+field+"Parsed = "+m[1] {
+		fail("%s: %s: parsed duration is not assigned to %sParsed", c.pos(then[len(then)-1]), fn, field)
 	}
 	eb, ok := ifs.Else.(*ast.BlockStmt)
 	if !ok || len(eb.List) != 1 {
@@ -556,7 +575,7 @@ func (c *ctx) recogniseDurationParser(fn, field string) int64 {
 	if !ok || as.Tok != token.ASSIGN || len(as.Lhs) != 1 || exprStr(as.Lhs[0]) != x+"."+field+"Parsed" {
 		fail("%s: %s: else branch does not assign %sParsed", c.pos(eb), fn, field)
 	}
-	return c.durationNs("configparser.go", as.Rhs[0])
+	return c.durationNs("configparser.go", as.Rhs[0]), positive
 }
 
 // recogniseCertListParser: X.<parsed> = make(...); for _, f := range X.<files> { cert, err := parseCertFromFile(f); if err != nil { return err }; append }; return nil
@@ -629,8 +648,8 @@ func (c *ctx) genLoad(l *leanFile, facts map[string]interface{}) {
 	sto.emit(l, "parseStorageType", "Storage")
 	fet := c.recogniseEnumParser(c.funcDecl("configparser.go", "", "parseCDPConfig"), "CRLFetchMode", "CRLFetchModeParsed", fetchZero)
 	fet.emit(l, "parseCRLFetchMode", "FetchMode")
-	intervalNs := c.recogniseDurationParser("parseUpdateInterval", "UpdateInterval")
-	cacheNs := c.recogniseDurationParser("parseDefaultCacheDuration", "DefaultCacheDuration")
+	intervalNs, intervalPos := c.recogniseDurationParser("parseUpdateInterval", "UpdateInterval")
+	cacheNs, cachePos := c.recogniseDurationParser("parseDefaultCacheDuration", "DefaultCacheDuration")
 	c.recogniseCertListParser("parseTrustedCrlSignerCerts", "TrustedSignatureCertsFiles", "TrustedSignatureCerts")
 	c.recogniseCertListParser("parseTrustedOcspResponderCerts", "TrustedResponderCertsFiles", "TrustedResponderCerts")
 
@@ -959,6 +978,8 @@ func (c *ctx) genLoad(l *leanFile, facts map[string]interface{}) {
 	l.p("    modeZero := %s, sigZero := %s, storageZero := %s, fetchZero := %s", modeZero, sigZero, storageZero, fetchZero)
 	l.p("    defaultIntervalNs := %d", intervalNs)
 	l.p("    defaultCacheNs := %d", cacheNs)
+	l.p("    intervalMustBePositive := %v", intervalPos)
+	l.p("    cacheMustBePositive := %v", cachePos)
 	l.p("    nilCdpDefault := { fetchMode := %s, strict := %s }", nilCdpFetch, nilCdpStrict)
 	l.p("    nilOcspDefault := { cacheNs := %d, responders := [], aiaStrict := %s }", nilOcspCache, nilOcspStrict)
 	l.p("    crlSteps := [%s]", strings.Join(crlSteps, ", "))
@@ -972,7 +993,7 @@ func (c *ctx) genLoad(l *leanFile, facts map[string]interface{}) {
 	l.p("    provisionSteps := [%s] }\n", strings.Join(psteps, ", "))
 	facts["load"] = map[string]interface{}{
 		"sigModeCases": sig.cases, "storageCases": sto.cases, "fetchModeCases": fet.cases,
-		"defaultIntervalNs": intervalNs, "defaultCacheNs": cacheNs,
+		"defaultIntervalNs": intervalNs, "defaultCacheNs": cacheNs, "intervalMustBePositive": intervalPos, "cacheMustBePositive": cachePos,
 		"crlSteps": crlSteps, "ocspSteps": ocspSteps, "parseSteps": parseSteps,
 		"validate":       map[string]interface{}{"disabledShortcut": disabledShortcut, "guarded": guarded, "checks": checks},
 		"unmarshalSteps": usteps, "provisionSteps": psteps,
